@@ -161,6 +161,12 @@ var c05Wraps = []c05Wrap{
 		return `<% contentFor("cf") { %>` + in + `<% } %>mid<%= contentOf("cf") %>`
 	}},
 	{"contentOf-default", func(e *c05Env, in string) string { return `<%= contentOf("undefined-name") { %>` + in + `<% } %>` }},
+	{"contentFor-used-with-default", func(e *c05Env, in string) string {
+		return `<% contentFor("cfd") { %>` + in + `<% } %>mid<%= contentOf("cfd") { %>DEFAULT<% } %>`
+	}},
+	{"contentFor-used-with-data", func(e *c05Env, in string) string {
+		return `<% contentFor("cfx") { %>` + in + `<% } %>mid<%= contentOf("cfx", {"k": 1}) %>`
+	}},
 	{"partial", func(e *c05Env, in string) string { return `<%= partial("` + e.partial(in) + `") %>` }},
 	{"layout", func(e *c05Env, in string) string {
 		lay := e.partial(`L[` + in + `<%= yield %>]`)
@@ -188,7 +194,7 @@ func init() {
 			return s
 		},
 		Run:  c05Run,
-		Rule: "compositions wrapper^d ∘ statement-form ∘ expression-context^e ∘ failing-atom framed by literal text A…B: 10 block wrappers (top, if, else, for, fn body, helper block, contentFor→contentOf, contentOf default block, partial body, layout), 12 statement forms (emit, silent, let, assign, if/else-if condition, for iterable, return, partial/contentOf data), 35 expression contexts (each operand side of all 13 binary operators, !, array/hash element, index container/index, Go-helper/user-fn/method argument), 16 failing atoms (helper returning (T,err)/(err), method returning (T,err), failing helper/method as head of a .field/.method()/[i] chain, type error, index out of range, division by zero — each with a recording call so 'reached' is measured — unknown identifier, unknown function, unknown identifier as argument, unknown identifier inside a partial / a helper-rendered template). Oracle when the failing site was reached: err != nil, output empty, errors.Is(err, sentinel) for helper failures; an unknown identifier is tolerated exactly as direct condition or direct operand of ! == != && || and fails everywhere else. Non-trivial: the failing site was reached (counted).",
+		Rule: "compositions wrapper^d ∘ statement-form ∘ expression-context^e ∘ failing-atom framed by literal text A…B: 12 block wrappers (top, if, else, for, fn body, helper block, contentFor→contentOf plain / with a default block / with data, contentOf default block, partial body, layout), 12 statement forms (emit, silent, let, assign, if/else-if condition, for iterable, return, partial/contentOf data), 35 expression contexts (each operand side of all 13 binary operators, !, array/hash element, index container/index, Go-helper/user-fn/method argument), 16 failing atoms (helper returning (T,err)/(err), method returning (T,err), failing helper/method as head of a .field/.method()/[i] chain, type error, index out of range, division by zero — each with a recording call so 'reached' is measured — unknown identifier, unknown function, unknown identifier as argument, unknown identifier inside a partial / a helper-rendered template). Oracle when the failing site was reached: err != nil, output empty, errors.Is(err, sentinel) for helper failures; an unknown identifier is tolerated exactly as direct condition or direct operand of ! == != && || and fails everywhere else. Non-trivial: the failing site was reached (counted).",
 		Bound: func(th bool) string {
 			if th {
 				return "d<=2 wrappers, e<=2 expression contexts"
@@ -205,7 +211,7 @@ func c05Run(t *engine.T, shard string) {
 	} else {
 		fmt.Sscan(shard, &wi)
 	}
-	deep := t.Thorough || wi == 0 || wi == 1 || wi == 3 || wi == 4
+	deep := t.Thorough || wi == 0 || wi == 1 || wi == 3 || wi == 4 || wi == 8
 	for _, st := range c05Stmts {
 		for _, at := range c05Atoms {
 			c05One(t, wi, wj, st, nil, at)
